@@ -245,7 +245,7 @@ def r12_4(cx):
         cx.report('R12.4', b, 'len-assert', ok, 'assert_eq!(replace_with.len(), self.patterns_len()) dominates the splice and its failure diverges' if ok else 'the splice is reachable without the replacement-table length check (or the check does not panic)', line_of(b, blk))
         a = ct[2]
         dstv = peel(a[2]) if len(a) == 4 else None
-        okargs = len(a) == 4 and is_var(peel(a[0]), 'self') and is_var(peel(a[1]), 'haystack') and is_var(dstv, 'dst') and is_agg(a[3], 'closure')
+        okargs = len(a) == 4 and peel_all(a[0]) == param_at(b, 1) and peel_all(a[1]) == param_at(b, 2) and is_var(dstv) and dstv[2] > b.j['arg_count'] and is_agg(a[3], 'closure')
         cx.report('R12.4', b, 'args', okargs, 'delegates with (self, haystack, &mut dst, closure)' if okargs else 'delegate arguments are %s' % tstr(ct, 200))
         # returned buffer is dst
         oks = [b.rvalue_term(st['r'], 0, bi) for bi, si, pl, st in b.stores() if si != 'term' and pl['l'] == 0 and not pl['pr']]
@@ -253,7 +253,7 @@ def r12_4(cx):
         okr = len(okret) == 1 and dstv is not None and okret[0][3].get('0') == dstv
         cx.report('R12.4', b, 'returns-dst', okr, 'returns Ok(dst), the buffer that was filled' if okr else 'returned value is not the filled buffer')
         # dst starts empty (with_capacity / new)
-        dl = b.locals_named('dst')
+        dl = [dstv[2]] if (dstv is not None and is_var(dstv)) else []
         okn = False
         if dl:
             ds = b.defs().get(dl[0], [])
@@ -271,7 +271,9 @@ def r12_4(cx):
         if len(app) == 1:
             tt = app[0]
             d = peel(tt[2][0])
-            val = peel(tt[2][1])
+            val = peel_all(expand_vars(c, tt[2][1]))
+            while val[0] == 'conv':
+                val = peel_all(val[2])
             ix = index_of(val)
             # dst is the third closure parameter (local 4), mat the first (local 2)
             okc = (is_var(d) and d[2] == 4 and ix is not None and ix[0][0] == 'f' and ix[0][2] == 'replace_with'
